@@ -22,6 +22,7 @@ META = {
     "does_not_decide": "nothing further inside the builders (straight-line code); the create_*/add_created_* helpers are C06",
     "trusted_base": ["std Vec::push/clear, BTreeSet::insert", "C17 (from_i64 / to_i64 / is_private summaries used in the guard tables)"],
 }
+META["decides"] += ' (As built: decided on every PUBLIC method with all crate-local callees expanded in place; key constructors by the net value of the returned key; a public method outside the documented-effects table that is not a generated setter is noted, not judged.)'
 
 SELF0 = ("field", ("param", 0), "0")
 
